@@ -120,7 +120,8 @@ def runCase (args : List String) : IO String := do
         match mkCfg rs buf tot with
         | .error e => return s!"M error={errName e}"
         | .ok cfg =>
-          let lazyMem := if mode = "blocking" ∨ lazy = "default" then defaultLazy cfg else lazy.toNat?.getD 0
+          let lazyMem := if mode = "steal" then 0
+            else if mode = "blocking" ∨ lazy = "default" then defaultLazy cfg else lazy.toNat?.getD 0
           let spec := sortSpec lt combf blocks
           let hs := hashes l spec
           if detail = "1" then
